@@ -22,8 +22,10 @@ EXPLANATION = (
     "(augmented assignment, trailing-underscore method, out=) on a tensor that may alias the cache, the stored top "
     "value or a Brownian query result, in the package and in the solver steps. R05.6: the memo cache is read and "
     "written under the key `self` of the computing node, stores the computed pair unchanged, and nodes define neither "
-    "__eq__ nor __hash__. Assumption (read, not decided): the interval decomposition does not depend on where the "
-    "search starts."
+    "__eq__ nor __hash__. R03.8 (shared with C03): one activation of the tree search for every ordering of the query end "
+    "points relative to a node does what an ordered contiguous cover requires and depends on (node, ta, tb) only, which "
+    "is the inductive step of 'the decomposition does not depend on where the search starts'; the induction itself is "
+    "on paper."
 )
 
 CTOR_NAMES = ("__init__",)
@@ -563,3 +565,7 @@ def run(ctx):
     ctx.guard(r05_5)
     ctx.guard(r05_6)
     ctx.guard(run_fixtures)
+    # start-independence of the decomposition: every activation of the tree search is a function of (node, ta, tb) only
+    # and follows the specification that makes the result an ordered contiguous cover (case analysis R03.8)
+    from . import c03
+    ctx.guard(c03.r03_8)
